@@ -1972,6 +1972,30 @@ def rule_unchecked_window(col, facts):
                       "`%s`: the wrapping fast path must be entered only when the digits remaining after the sign (integer_iter().as_slice().len()) number at most overflow_digits(radix), with nothing added" % show(e)[:160], f.loc(f.blocks[i]["ts"]))
 
 
+def rule_take_n_window_size(col, facts):
+    """GRD-window (take_n): the checked path parses its first digits unchecked through `take_n(k)`; the digits
+    before it (skipped zeros) do not contribute to the value, so k is exactly overflow_digits(radix).  Any
+    arithmetic on it can underflow (`overflow_digits - (cursor - start_index)` wraps once more zeros were skipped
+    than the type has digits: debug panic, out-of-slice window in release)."""
+    R = "GRD-window"
+    n = 0
+    for name in ("algorithm_complete", "algorithm_partial"):
+        f = facts.fn("lexical_parse_integer::algorithm::" + name)
+        bad = 0
+        where = f.loc()
+        for bb, c, a, d, t in f.calls():
+            if last_seg(callee_name(c)) != "take_n" or len(a) < 2:
+                continue
+            n += 1
+            e = strip_casts(op_expr(f, a[1]))
+            if not (e[0] == "call" and last_seg(e[1]) == "overflow_digits"):
+                bad += 1
+                where = f.loc(f.blocks[bb]["ts"])
+        col.check(R, name + ":take_n-size", bad == 0,
+                  "%d take_n call(s) are handed something other than overflow_digits(radix) itself: a computed window size can underflow or exceed the digits that cannot overflow" % bad, where)
+    col.floor(R, "take_n calls in the integer algorithms", n, 2)
+
+
 def rule_sign_in_accumulation(col, facts):
     """UNIT-sign (integer parser): negative numbers are accumulated with subtraction inside the loop (the
     value is already negative when the partial parser returns from inside it).  Both the checked and the
